@@ -768,7 +768,7 @@ pub fn owned_prefixes(prop: &str) -> &'static [&'static str] {
         "C13" => &["panic/undocumented", "time/", "ledger/leak", "ledger/double-drop", "ledger/option", "ledger/failed-send-delivered", "life/", "hang/", "wait/"],
         "C14" => &["nonblock/", "ledger/failed-send-delivered", "ledger/lost", "ledger/option", "explain/none"],
         "C15" => &["ledger/", "life/", "order/", "hang/", "wait/", "waiters/"],
-        "C16" => &["poll/", "stream/", "hang/", "ledger/dup-receive", "ledger/invented", "ledger/lost", "order/", "panic/undocumented", "wait/"],
+        "C16" => &["poll/", "stream/", "hang/", "ledger/dup-receive", "ledger/invented", "ledger/lost", "order/", "panic/undocumented", "wait/", "ledger/leak", "ledger/double-drop"],
         "C19" => &["drain/", "order/", "nonblock/", "ledger/failed-send-delivered", "ledger/dup-receive"],
         _ => &[],
     }
@@ -848,6 +848,8 @@ pub fn evaluate(prop: &str, d: &RunData) -> (Vec<Violation>, Vec<Violation>) {
             all.extend(o_waiter_order(&a));
         }
         "C16" => {
+            // a re-poll (spurious, changed waker, after completion) must not cost a value its single destruction
+            all.extend(o_drops(&a).into_iter().filter(|x| x.sig.starts_with("ledger/leak") || x.sig.starts_with("ledger/double-drop")));
             all.extend(o_poll(&a));
             all.extend(o_delivery(&a));
             all.extend(o_order(&a));
